@@ -90,6 +90,8 @@ def generate(tier, rng):
                     yield dict(c, ops=c["ops"][:-1] + [dict(op, faults={"kinds": kinds})])
     for n0, ops in fc.wide_histories(rng, tier, pre_only=True):
         fl = rng.choice(["nm", "light"])
+        if any(fc.has_nonnode(o) for o in ops):
+            fl = "nm"
         c = fc.mk(fl, False, n0, ops, cls=(rng.choice(fc.NM_CLASSES) if fl == "nm" else None))
         c["loglevel"] = 1
         yield c
